@@ -112,7 +112,11 @@ def check_boundary_divisions(model, rep, R='C08.boundary-division'):
                 for test in tested:
                     tnames = {ast.unparse(x) for x in ast.walk(test) if isinstance(x, (ast.Name, ast.Attribute))}
                     if isinstance(dnode, ast.Name) and dnode.id in tnames:
-                        safe = True
+                        # ... against zero: `d == 0`, `d.value != 0`, or a bare truth test of it
+                        zero_test = not isinstance(test, ast.Compare) or any(
+                            isinstance(c, ast.Constant) and c.value == 0 and not isinstance(c.value, bool) for c in [test.left] + list(test.comparators))
+                        if zero_test:
+                            safe = True
                     if isinstance(test, ast.Compare) and len(test.ops) == 1:
                         sides = {ast.unparse(test.left), ast.unparse(test.comparators[0])}
                         if any({a, b} == sides for a, b in subs):
